@@ -18,6 +18,10 @@ package main
 //   (2) a session failing the GLOBAL rules is refused with 401/403, nothing reaches the upstream, and every session
 //       cookie the request presented is deleted (judged with a browser cookie jar)
 //   (3) a login whose identity fails the rules ends in an error page, without session cookie and without Redis entry
+//   (4) the decision depends on the session's e-mail and groups only: the user name, preferred_username and group
+//       names may equal the e-mail or an allowed address without changing it (c08IdentityShapes); an e-mails file
+//       contributes the FIRST column of each record ("one email per line" is the documented format, the file is read
+//       as CSV), never an address of a later column
 // Histories: every cookie session is issued by a permissive instance and presented to restrictive instances sharing
 // secret (and Redis) — the operator restarted with stricter rules; and the e-mails file is rewritten (atomic rename
 // and in-place) between requests.
@@ -111,37 +115,61 @@ func c08Intersects(have, allowed []string) bool {
 }
 
 type c08FileLine struct {
-	Addr string // what the operator means
-	Deco string // plain | spaces | upper | comment | quoted
+	Addr string // what the operator means: the allowed address of this line (the line's FIRST column)
+	Deco string // plain | spaces | upper | comment | quoted | blank
+	// Extra: further comma-separated columns of the line. The documented format is "one email per line"; the file is
+	// read as CSV, and whatever follows the first column (sponsor, owner, ticket, date) was never configured as an
+	// allowed address: the reference reads the first column only.
+	Extra []string
 }
 
 func (l c08FileLine) text() string {
+	var first string
 	switch l.Deco {
+	case "blank":
+		return ""
 	case "spaces":
-		return "  " + l.Addr + "  "
+		first = "  " + l.Addr + "  "
 	case "upper":
-		return strings.ToUpper(l.Addr)
+		first = strings.ToUpper(l.Addr)
 	case "comment":
-		return "# " + l.Addr
+		first = "# " + l.Addr
 	case "quoted":
-		return `"` + l.Addr + `"`
+		first = `"` + l.Addr + `"`
+	default:
+		first = l.Addr
 	}
-	return l.Addr
+	for _, x := range l.Extra {
+		switch l.Deco {
+		case "quoted":
+			first += `,"` + x + `"`
+		case "spaces":
+			first += ",   " + x + "  "
+		case "upper":
+			first += "," + x
+		default:
+			first += ", " + x
+		}
+	}
+	return first
 }
 
-func c08FileText(lines []c08FileLine) string {
+func c08FileText(lines []c08FileLine) string { return c08FileTextEOL(lines, "\n") }
+
+func c08FileTextEOL(lines []c08FileLine, eol string) string {
 	var b strings.Builder
-	b.WriteString("# authenticated e-mails\n")
+	b.WriteString("# authenticated e-mails" + eol)
 	for _, l := range lines {
-		b.WriteString(l.text() + "\n")
+		b.WriteString(l.text() + eol)
 	}
 	return b.String()
 }
 
+// c08FileHas: the allowed addresses of an e-mails file are the first columns of its records, nothing else.
 func c08FileHas(lines []c08FileLine, email string) bool {
 	e := strings.ToLower(email)
 	for _, l := range lines {
-		if l.Deco != "comment" && strings.ToLower(strings.TrimSpace(l.Addr)) == e {
+		if l.Deco != "comment" && l.Deco != "blank" && strings.ToLower(strings.TrimSpace(l.Addr)) == e {
 			return true
 		}
 	}
@@ -152,6 +180,7 @@ type c08RuleSet struct {
 	Name     string
 	Domains  []string
 	File     []c08FileLine // nil = no file
+	FileCRLF bool          // the file has CRLF line ends
 	Groups   []string      // --allowed-group
 	Ht       bool          // --htpasswd-file
 	HtGroups []string
@@ -182,8 +211,8 @@ func (r c08RuleSet) allowed(email string, groups []string) (ok, ambiguous bool) 
 }
 
 func c08RuleSets() []c08RuleSet {
-	file1 := []c08FileLine{{"listed@other.org", "plain"}, {"Mixed.Case@Other.ORG", "plain"}, {"spaced@other.org", "spaces"}, {"upper@other.org", "upper"}, {"commented@other.org", "comment"},
-		{"quoted@other.org", "quoted"}, {"a@b@example.com", "plain"}, {"u@evilexample.com", "plain"}}
+	file1 := []c08FileLine{{"listed@other.org", "plain", nil}, {"Mixed.Case@Other.ORG", "plain", nil}, {"spaced@other.org", "spaces", nil}, {"upper@other.org", "upper", nil}, {"commented@other.org", "comment", nil},
+		{"quoted@other.org", "quoted", nil}, {"a@b@example.com", "plain", nil}, {"u@evilexample.com", "plain", nil}}
 	return []c08RuleSet{
 		{Name: "exact", Domains: []string{"example.com"}, ErrMode: "page"},
 		{Name: "leading-dot", Domains: []string{".example.com"}, ErrMode: "json"},
@@ -197,7 +226,7 @@ func c08RuleSets() []c08RuleSet {
 		{Name: "tld-dot", Domains: []string{".com"}, ErrMode: "page"},
 		{Name: "star-dot-mixedcase", Domains: []string{"*.Example.COM"}, ErrMode: "json"},
 		{Name: "file-only", Domains: []string{"nomatch.invalid"}, File: file1, ErrMode: "page"},
-		{Name: "file+domain", Domains: []string{"example.com"}, File: []c08FileLine{{"listed@other.org", "plain"}, {"u@sub.example.com", "upper"}}, ErrMode: "json"},
+		{Name: "file+domain", Domains: []string{"example.com"}, File: []c08FileLine{{"listed@other.org", "plain", nil}, {"u@sub.example.com", "upper", nil}}, ErrMode: "json"},
 		{Name: "group", Domains: []string{"*"}, Groups: []string{"g1"}, ErrMode: "page"},
 		{Name: "two-groups+domain", Domains: []string{"example.com"}, Groups: []string{"g2", "g1"}, ErrMode: "json"},
 		{Name: "group+htpasswd", Domains: []string{"example.com"}, Groups: []string{"g1", "hg"}, Ht: true, HtGroups: []string{"hg"}, ErrMode: "page"},
@@ -216,6 +245,30 @@ func c08RuleSets() []c08RuleSet {
 		{Name: "dot-only", Domains: []string{"."}, OneStore: true, ErrMode: "json"},
 		{Name: "star-without-dot", Domains: []string{"*example.com"}, OneStore: true, ErrMode: "page"},
 		{Name: "double-star", Domains: []string{"**", "*.*"}, RawFlags: []string{"**,*.*"}, OneStore: true, ErrMode: "page"},
+		// file-format variety of the e-mails file (documented: one address per line; read as CSV): later columns hold
+		// annotations, never allowed addresses; quoted fields, trailing commas, blank lines, CRLF, padding. Every record of
+		// a file has the same number of columns (the CSV reader rejects a ragged file as a whole).
+		{Name: "file-annotated-columns", Domains: []string{"nomatch.invalid"}, OneStore: true, ErrMode: "page", File: []c08FileLine{
+			{"alice@cols.test", "plain", []string{"mallory@partner.test"}},
+			{"", "blank", nil},
+			{"ivan@cols.test", "spaces", []string{"judy@partner.test"}},
+			{"dave@cols.test", "upper", []string{"DAVE.OWNER@partner.test"}},
+			{"erin@cols.test", "plain", []string{""}}, // trailing comma
+			{"mallory2@partner.test", "plain", []string{"alice@cols.test"}},
+			{"commented@cols.test", "comment", []string{"trent@partner.test"}},
+			{"listed@other.org", "plain", []string{"u@example.com"}}}},
+		{Name: "file-quoted-three-columns-crlf", Domains: []string{"nomatch.invalid"}, OneStore: true, ErrMode: "json", FileCRLF: true, File: []c08FileLine{
+			{"frank@cols.test", "quoted", []string{"added 2024-01-01", "owner@partner.test"}},
+			{"grace@cols.test", "quoted", []string{"team a, team b", "heidi@partner.test"}},
+			{"", "blank", nil},
+			{"Mixed.Case@Other.ORG", "quoted", []string{"sponsor", "LISTED@other.org"}}}},
+		{Name: "file-several-per-line", Domains: []string{"example.com"}, OneStore: true, ErrMode: "page", File: []c08FileLine{
+			// one column whose text is not one address: the separators below are not the format's; the second address
+			// of such a line is allowed by nothing (the first one is not judged: not included in the subjects)
+			{"kate@cols.test leo@partner.test", "plain", nil},
+			{"mike@cols.test;nina@partner.test", "plain", nil},
+			{"oscar@cols.test\tpeggy@partner.test", "plain", nil},
+			{"listed@other.org", "plain", nil}}},
 		{Name: "duplicates+upper", Domains: []string{"example.com", "EXAMPLE.COM", "example.com"}, RawFlags: []string{"example.com,EXAMPLE.COM,example.com"}, OneStore: true, ErrMode: "page"},
 	}
 }
@@ -228,7 +281,13 @@ type c08Subject struct {
 	Groups []string `json:"groups"`
 	Class  string   `json:"class"`
 	Big    bool     `json:"big,omitempty"` // padded so that the cookie store splits the session over several cookies
-	n      int
+	// identity shape (c08IdentityShapes): Email stays the SESSION's e-mail, the only field the e-mail rules may look at
+	Sub        string `json:"sub,omitempty"`                // sub claim = the session's user name (default u-<n>)
+	PU         string `json:"preferred_username,omitempty"` // default pu-<n>
+	EmailClaim string `json:"email_claim,omitempty"`        // "" = Email | "omitted" | "empty" (bearer tokens: the subject takes the e-mail's place) | "other:<value>" (claim mapping reads the e-mail elsewhere)
+	Shape      string `json:"shape,omitempty"`
+	bearerOnly bool
+	n          int
 	// credentials (made in the run)
 	cookieLines map[string][]string // store/family -> raw Set-Cookie lines of the session as issued
 	rkey, rval  map[string]string   // family -> Redis entry of the redis-store session
@@ -294,6 +353,11 @@ func c08Subjects(run *vfRun) []*c08Subject {
 	add("quoted@other.org", "file")
 	add("listed@other.orgx", "file-lookalike")
 	add("xlisted@other.org", "file-lookalike")
+	// addresses that occur in e-mails files with several columns (first column = allowed, later column = annotation)
+	for _, e := range []string{"alice@cols.test", "mallory@partner.test", "judy@partner.test", "ivan@cols.test", "dave.owner@partner.test", "erin@cols.test", "trent@partner.test", "frank@cols.test",
+		"owner@partner.test", "heidi@partner.test", "team a", "leo@partner.test", "nina@partner.test", "peggy@partner.test"} {
+		add(e, "file-column")
+	}
 	// group boundary lists (e-mail passes every domain rule that names example.com)
 	for _, g := range [][]string{{}, {"g1"}, {"g2"}, {"g9"}, {"g9", "g8", "g1"}, {"G1"}, {"g1 "}, {"g"}, {"g11"}, {"g1,g2"}, {"hg"}, {""}} {
 		out = append(out, &c08Subject{Email: "g@example.com", Groups: append([]string{}, g...), Class: "groups:" + strings.Join(g, "+")})
@@ -412,7 +476,7 @@ func (cw *c08World) flags(r c08RuleSet, store, fam string) []string {
 		}
 	}
 	if r.File != nil {
-		f = append(f, "--authenticated-emails-file="+cw.w.File("c08-emails-"+r.Name+"-"+store, c08FileText(r.File)))
+		f = append(f, "--authenticated-emails-file="+cw.w.File("c08-emails-"+r.Name+"-"+store, c08FileTextEOL(r.File, map[bool]string{false: "\n", true: "\r\n"}[r.FileCRLF])))
 	}
 	for _, g := range r.Groups {
 		f = append(f, "--allowed-group="+g)
@@ -454,6 +518,9 @@ func c08Violation(run *vfRun, sig, summary string, detail interface{}) {
 func c08ASCII(v interface{}) string {
 	switch x := v.(type) {
 	case *c08Subject:
+		if x.Shape != "" {
+			return fmt.Sprintf("{email %+q user %+q preferred_username %+q groups %s [%s]}", x.Email, x.sub(), x.pu(), vfTrunc(fmt.Sprintf("%+q", x.Groups), 60), x.Shape)
+		}
 		return fmt.Sprintf("{email %+q groups %s}", x.Email, vfTrunc(fmt.Sprintf("%+q", x.Groups), 60))
 	case string:
 		return fmt.Sprintf("%+q", x)
@@ -480,14 +547,45 @@ func c08IssuesSession(lines []string) bool {
 	return false
 }
 
+func (s *c08Subject) sub() string {
+	if s.Sub != "" {
+		return s.Sub
+	}
+	return fmt.Sprintf("u-%d", s.n)
+}
+
+func (s *c08Subject) pu() string {
+	if s.PU != "" {
+		return s.PU
+	}
+	return fmt.Sprintf("pu-%d", s.n)
+}
+
+// emailClaim: the value of the token's e-mail claim (present = false: the claim is left out).
+func (s *c08Subject) emailClaim() (value string, present bool) {
+	switch {
+	case s.EmailClaim == "omitted":
+		return "", false
+	case s.EmailClaim == "empty":
+		return "", true
+	case strings.HasPrefix(s.EmailClaim, "other:"):
+		return strings.TrimPrefix(s.EmailClaim, "other:"), true
+	}
+	return s.Email, true
+}
+
 func (s *c08Subject) identity() vfIdentity {
-	return vfIdentity{Sub: fmt.Sprintf("u-%d", s.n), Email: s.Email, Groups: s.Groups, PreferredUsername: fmt.Sprintf("pu-%d", s.n)}
+	e, _ := s.emailClaim()
+	return vfIdentity{Sub: s.sub(), Email: e, Groups: s.Groups, PreferredUsername: s.pu()}
 }
 
 // makeCreds: real logins at the permissive issuers (one per store) and a bearer token with the same claims.
 func (cw *c08World) makeCreds(s *c08Subject) error {
 	s.cookieLines, s.rkey, s.rval = map[string][]string{}, map[string]string{}, map[string]string{}
 	for _, key := range []string{"cookie/host", "redis/host", "cookie/domain", "redis/domain"} {
+		if s.bearerOnly {
+			break
+		}
 		p := cw.issuer[key]
 		store, fam := strings.Split(key, "/")[0], strings.Split(key, "/")[1]
 		b := vfNewBrowser("")
@@ -506,8 +604,12 @@ func (cw *c08World) makeCreds(s *c08Subject) error {
 		}
 	}
 	now := time.Now()
-	s.bearer = vfMint(map[string]interface{}{"iss": cw.w.IdP.Issuer, "aud": "cid", "sub": fmt.Sprintf("u-%d", s.n), "email": s.Email, "groups": s.Groups,
-		"preferred_username": fmt.Sprintf("pu-%d", s.n), "exp": now.Add(6 * time.Hour).Unix(), "iat": now.Add(-time.Minute).Unix()}, vfMintOpts{})
+	claims := map[string]interface{}{"iss": cw.w.IdP.Issuer, "aud": "cid", "sub": s.sub(), "groups": s.Groups,
+		"preferred_username": s.pu(), "exp": now.Add(6 * time.Hour).Unix(), "iat": now.Add(-time.Minute).Unix()}
+	if e, present := s.emailClaim(); present {
+		claims["email"] = e
+	}
+	s.bearer = vfMint(claims, vfMintOpts{})
 	return nil
 }
 
@@ -643,10 +745,16 @@ func c08Global(cw *c08World, subjects []*c08Subject) {
 			if !run.Env.Thorough() && s.Class == "grammar" && (k/2+s.n)%2 == 1 {
 				continue // quick tier: the seeded grammar sample visits every other rule set
 			}
+			if !run.Env.Thorough() && s.Class == "file-column" && in.Rules.File == nil {
+				continue // quick tier: addresses of file columns visit the rule sets with an e-mails file
+			}
 			ok, amb := in.Rules.allowed(s.Email, s.Groups)
 			if amb {
 				run.Count("ambiguous_skipped", 1)
 				continue
+			}
+			if s.Class == "file-column" && !ok && len(in.Rules.File) > 0 && len(in.Rules.File[0].Extra) > 0 {
+				run.Count("file_column_subjects_outside_rules_at_multi_column_files", 1)
 			}
 			for _, src := range []string{"cookie", "bearer"} {
 				if s.Big && src == "bearer" {
@@ -665,6 +773,147 @@ func c08Global(cw *c08World, subjects []*c08Subject) {
 			}
 		}
 	})
+}
+
+// c08IdentityShapes: the e-mail rules look at the session's E-MAIL and at nothing else. The relation between the
+// e-mail and the session's other fields is varied — user name (sub) equal to the e-mail, equal to it in upper case,
+// equal to an address the rules ALLOW while the e-mail is not allowed, preferred_username likewise, group names that
+// spell an allowed address or domain, no groups — for e-mails failing and passing the rules, on every session kind:
+// cookie session (real login with such claims at the permissive instance, presented after the restart), bearer token
+// with an e-mail claim, bearer token whose e-mail claim is missing or empty (documented: the subject takes its
+// place, so the subject is what the rules judge), and claim mappings that read the e-mail from `sub` /
+// `preferred_username` (--oidc-email-claim). Returns the login attempts of the same identities at the restrictive
+// instances (run with the other logins).
+func c08IdentityShapes(cw *c08World) []c08LoginJob {
+	run := cw.run
+	var subs []*c08Subject
+	add := func(s *c08Subject) {
+		if s.Groups == nil {
+			s.Groups = []string{"g1"}
+		}
+		s.n = 7000 + len(subs)
+		s.Class = "shape:" + s.Shape
+		s.bearerOnly = s.EmailClaim != ""
+		subs = append(subs, s)
+	}
+	for _, e := range []string{"mallory@evil.org", "u@evilexample.com", "listed@other.orgx", "u@example.com", "listed@other.org"} {
+		a := "u@example.com" // an address that rule sets allow (by domain; the other one by file)
+		if e == a {
+			a = "listed@other.org"
+		}
+		add(&c08Subject{Email: e, Shape: "user=email", Sub: e})
+		add(&c08Subject{Email: e, Shape: "user=EMAIL", Sub: strings.ToUpper(e)})
+		add(&c08Subject{Email: e, Shape: "user=preferred_username=an-allowed-address", Sub: a, PU: a})
+		add(&c08Subject{Email: e, Shape: "preferred_username=email", PU: e})
+		add(&c08Subject{Email: e, Shape: "user=preferred_username=group=email", Sub: e, PU: e, Groups: []string{e, "g1"}})
+		add(&c08Subject{Email: e, Shape: "groups-spell-allowed-address-and-domain", Groups: []string{a, "example.com", "@example.com", "g1"}})
+		add(&c08Subject{Email: e, Shape: "user=email,no-groups", Sub: e, Groups: []string{}})
+		add(&c08Subject{Email: e, Shape: "no-email-claim,sub=address", Sub: e, EmailClaim: "omitted"})
+		add(&c08Subject{Email: e, Shape: "empty-email-claim,sub=address", Sub: e, EmailClaim: "empty"})
+		add(&c08Subject{Email: e, Shape: "no-email-claim,sub=address,preferred_username=an-allowed-address", Sub: e, PU: a, EmailClaim: "omitted"})
+	}
+	for _, id := range []string{"svc-123456789", "example.com", "0"} {
+		add(&c08Subject{Email: id, Shape: "no-email-claim,sub=service-id", Sub: id, EmailClaim: "omitted"})
+	}
+	var insts []*c08Inst
+	for _, in := range cw.insts {
+		switch in.Rules.Name {
+		case "exact", "leading-dot", "file-only", "file+domain", "two-groups+domain":
+			insts = append(insts, in)
+		}
+	}
+	// claim mappings that take the e-mail from another claim: the session's e-mail IS then the user name / the
+	// preferred user name, and is judged like any other e-mail
+	type mapping struct {
+		in    *c08Inst
+		claim string
+	}
+	var maps []mapping
+	for _, claim := range []string{"sub", "preferred_username"} {
+		rs := c08RuleSet{Name: "email-claim=" + claim, Domains: []string{"example.com"}, ErrMode: "page"}
+		p, err := cw.w.NewProxy(append(cw.flags(rs, "cookie", "host"), "--oidc-email-claim="+claim)...)
+		if err != nil {
+			run.T.Fatalf("c08: instance with --oidc-email-claim=%s: %v", claim, err)
+		}
+		maps = append(maps, mapping{&c08Inst{Rules: rs, Store: "cookie", Fam: "host", P: p}, claim})
+	}
+	var jobs []c08LoginJob
+	var jmu sync.Mutex
+	vfParallel(len(subs), 16, func(i int) {
+		s := subs[i]
+		if err := cw.makeCreds(s); err != nil {
+			run.T.Errorf("c08: identity shape %q: %v", s.Shape, err)
+			return
+		}
+		run.Count("identity_shapes", 1)
+		for k, in := range insts {
+			ok, amb := in.Rules.allowed(s.Email, s.Groups)
+			if amb {
+				run.Count("ambiguous_skipped", 1)
+				continue
+			}
+			for _, src := range []string{"cookie", "bearer"} {
+				if src == "cookie" && s.bearerOnly {
+					continue
+				}
+				for t, target := range c08Targets {
+					id := fmt.Sprintf("c08s-%d-%d-%s-%d", s.n, k, src, t)
+					cell := fmt.Sprintf("%s|%s|%s|%s|%s|restart|want=%v", in.Rules.Name, s.Class, src, target, in.Store, ok)
+					if src == "cookie" {
+						cw.restore(s)
+						cw.probe(in, "session issued by a permissive instance sharing secret and store, presented after an operator restart with these rules", src, s, s.cookieLines[in.key()], "", target, ok, cell, id)
+					} else {
+						cw.probe(in, "bearer token", src, s, nil, "Bearer "+s.bearer, target, ok, cell, id)
+					}
+					if !ok {
+						run.Count("identity_shape_probes_outside_rules", 1)
+					}
+				}
+			}
+			if !s.bearerOnly && (in.Store == "cookie" || (i+k)%3 == 0) {
+				jmu.Lock()
+				jobs = append(jobs, c08LoginJob{in, s})
+				jmu.Unlock()
+			}
+		}
+		// the same claims where the e-mail is read from another claim
+		for k, m := range maps {
+			em := s.sub()
+			if m.claim == "preferred_username" {
+				em = s.pu()
+			}
+			e0, _ := s.emailClaim()
+			d := &c08Subject{Email: em, Groups: s.Groups, Class: s.Class, Shape: s.Shape + ", --oidc-email-claim=" + m.claim, Sub: s.sub(), PU: s.pu(), EmailClaim: "other:" + e0, n: s.n, bearerOnly: true, bearer: s.bearer}
+			if _, present := s.emailClaim(); !present {
+				d.EmailClaim = "omitted"
+			}
+			ok, amb := m.in.Rules.allowed(em, s.Groups)
+			if amb {
+				continue
+			}
+			for t, target := range c08Targets {
+				cw.probe(m.in, "bearer token", "bearer", d, nil, "Bearer "+s.bearer, target, ok, fmt.Sprintf("%s|%s|bearer|%s|cookie|none|want=%v", m.in.Rules.Name, s.Class, target, ok), fmt.Sprintf("c08sm-%d-%d-%d", s.n, k, t))
+				if !ok {
+					run.Count("identity_shape_probes_outside_rules", 1)
+				}
+			}
+			if !s.bearerOnly {
+				jmu.Lock()
+				jobs = append(jobs, c08LoginJob{m.in, d})
+				jmu.Unlock()
+			}
+		}
+	})
+	sort.Slice(jobs, func(a, b int) bool {
+		if jobs[a].s.n != jobs[b].s.n {
+			return jobs[a].s.n < jobs[b].s.n
+		}
+		if jobs[a].in.Rules.Name != jobs[b].in.Rules.Name {
+			return jobs[a].in.Rules.Name < jobs[b].in.Rules.Name
+		}
+		return jobs[a].in.Store < jobs[b].in.Store
+	})
+	return jobs
 }
 
 // htpasswd sessions: Basic credentials and the session cookie of a form login at the htpasswd instance
@@ -731,22 +980,33 @@ func c08SHA(pw string) string {
 }
 
 // logins: an identity failing the rules gets no session at all
-func c08Logins(cw *c08World, subjects []*c08Subject) {
+type c08LoginJob struct {
+	in *c08Inst
+	s  *c08Subject
+}
+
+func c08Logins(cw *c08World, subjects []*c08Subject, extra []c08LoginJob) {
 	run := cw.run
-	type job struct {
-		in *c08Inst
-		s  *c08Subject
-	}
+	type job = c08LoginJob
 	var par, ser []job
+	for _, j := range extra {
+		if j.in.Store == "redis" {
+			ser = append(ser, j)
+		} else {
+			par = append(par, j)
+		}
+	}
 	for k, in := range cw.insts {
 		for i, s := range subjects {
+			// an address of a later file column always tries to log in where the file has several columns
+			always := s.Class == "file-column" && strings.HasPrefix(in.Rules.Name, "file-")
 			if s.Class == "grammar" && (!run.Env.Thorough() || (i+k)%6 != 0) {
 				continue
 			}
-			if !run.Env.Thorough() && (i+k/2)%2 == 1 {
+			if !always && !run.Env.Thorough() && (i+k/2)%2 == 1 {
 				continue
 			}
-			if !run.Env.Thorough() && in.Store == "redis" && (i+k/2)%4 != 0 {
+			if !always && !run.Env.Thorough() && in.Store == "redis" && (i+k/2)%4 != 0 {
 				continue // Redis logins run one at a time (the key space is compared before/after)
 			}
 			if in.Store == "redis" {
@@ -1082,7 +1342,7 @@ func c08Reload(cw *c08World) {
 	run := cw.run
 	pool := []string{"r0@reload.test", "R1@Reload.Test", "r2@reload.test", "r3@sub.reload.test", "r4@reload.test", "r5@reload.testx"}
 	for _, store := range []string{"cookie", "redis"} {
-		path := cw.w.File("c08-reload-"+store, c08FileText([]c08FileLine{{"nobody@reload.test", "plain"}}))
+		path := cw.w.File("c08-reload-"+store, c08FileText([]c08FileLine{{"nobody@reload.test", "plain", nil}}))
 		p, err := cw.w.NewProxy("--session-store-type="+store, "--redis-connection-url="+cw.w.RedisURL(), "--skip-jwt-bearer-tokens=true", "--email-domain=nomatch.invalid", "--authenticated-emails-file="+path)
 		if err != nil {
 			run.T.Fatalf("c08: reload instance: %v", err)
@@ -1101,14 +1361,25 @@ func c08Reload(cw *c08World) {
 		for round := 0; round < rounds; round++ {
 			canary := fmt.Sprintf("canary-%d@reload.test", round)
 			var lines []c08FileLine
-			for _, e := range pool {
+			// every other version has a second column (annotation) on every line: another address of the pool, or the
+			// address the line stood for in an earlier version — being named there allows nobody
+			annotate := func(i int) []string {
+				if round%2 == 0 {
+					return nil
+				}
+				return []string{pool[(i+1+round/2)%len(pool)]}
+			}
+			for i, e := range pool {
 				if rng.Intn(2) == 0 {
-					lines = append(lines, c08FileLine{e, []string{"plain", "spaces", "upper", "quoted"}[rng.Intn(4)]})
+					lines = append(lines, c08FileLine{Addr: e, Deco: []string{"plain", "spaces", "upper", "quoted"}[rng.Intn(4)], Extra: annotate(i)})
 				} else if rng.Intn(3) == 0 {
-					lines = append(lines, c08FileLine{e, "comment"})
+					lines = append(lines, c08FileLine{Addr: e, Deco: "comment", Extra: annotate(i)})
 				}
 			}
-			lines = append(lines, c08FileLine{canary, "plain"})
+			lines = append(lines, c08FileLine{Addr: canary, Deco: "plain", Extra: annotate(round)})
+			if round%2 == 1 {
+				run.Count("reload_versions_with_annotation_column", 1)
+			}
 			// how the new version arrives: rewritten in place, or prepared aside and renamed over the file — with a
 			// modification time of now, or OLDER than / EQUAL to the current file's (mv of a prepared copy, rsync -t,
 			// cp -p, restore from a backup), or with exactly the size of the version it replaces
@@ -1124,9 +1395,11 @@ func c08Reload(cw *c08World) {
 				mtime = "older"
 				if prevLines != nil { // same size: the previous version with one address and the canary exchanged for others of equal length
 					lines = nil
+					var ann []string
 					for _, l := range prevLines {
 						switch {
 						case strings.HasPrefix(l.Addr, "canary-"):
+							ann = l.Extra // the new canary line keeps the old one's annotation (same size)
 							continue
 						case l.Addr == "r2@reload.test":
 							l.Addr = "x2@reload.test"
@@ -1135,7 +1408,7 @@ func c08Reload(cw *c08World) {
 						}
 						lines = append(lines, l)
 					}
-					lines = append(lines, c08FileLine{canary, "plain"})
+					lines = append(lines, c08FileLine{Addr: canary, Deco: "plain", Extra: ann})
 					how = "atomic write+rename, same size"
 				}
 			}
@@ -1272,7 +1545,7 @@ func c08Symlinked(cw *c08World) {
 		listed := func(addrs ...string) []c08FileLine {
 			var l []c08FileLine
 			for _, a := range addrs {
-				l = append(l, c08FileLine{a, "plain"})
+				l = append(l, c08FileLine{Addr: a, Deco: "plain"})
 			}
 			return l
 		}
@@ -1401,9 +1674,9 @@ func c08Emptied(cw *c08World, in *c08Inst, path string, subs []*c08Subject) {
 		marker := fmt.Sprintf("marker-%d@reload.test", hi)
 		var lines []c08FileLine
 		for _, s := range subs {
-			lines = append(lines, c08FileLine{s.Email, "plain"})
+			lines = append(lines, c08FileLine{Addr: s.Email, Deco: "plain"})
 		}
-		lines = append(lines, c08FileLine{marker, "plain"})
+		lines = append(lines, c08FileLine{Addr: marker, Deco: "plain"})
 		c08WriteFile(run, path, []string{"atomic write+rename", "in-place rewrite"}[hi%2], c08FileText(lines))
 		if !cw.pollAuth(in.P, marker, true, 400) {
 			run.Inconclusive("e-mails file reload not visible after 10 s (before emptying)")
@@ -1680,7 +1953,9 @@ func TestVerif_C08(t *testing.T) {
 	run := vfNewRun(t, "C08", "exploration")
 	run.SetRule("global rules: boundary e-mails (exact, case, sub-domain, look-alike prefix/suffix/dot, several '@', empty parts, spaces, wildcard literals, unicode, file members) + seeded grammar sample + boundary group lists + split-cookie sessions " +
 		"x 18 rule sets (exact, leading-dot, *., '*', several domains, e-mails file with case/space/comment/quoted variants, allowed groups, htpasswd) x {cookie, redis} + 13 odd list shapes (blank items from trailing/leading/doubled commas, blank-only and quoted empty items, the same in a config file, '*' among others, '*.', '.', '*x', duplicates) on one store each, x {cookie session after restart, bearer, htpasswd Basic, htpasswd form session} x {proxied path, auth-only, userinfo}; " +
-		"logins of failing identities; auth-only query constraints (3 kinds x absent/empty/match/no-match/lists/repeats/empty items/look-alikes) x 7 sessions x 2 instances; e-mails file rewritten between requests, including histories that end with a file without any address (empty, comments only; atomic rename and in place); logins of identities without any e-mail through --provider=adfs; e-mails file behind a symlink whose target is swapped (ConfigMap layout); identity attributes (groups, e-mail) changed by the provider at a token refresh. " +
+		"logins of failing identities; auth-only query constraints (3 kinds x absent/empty/match/no-match/lists/repeats/empty items/look-alikes) x 7 sessions x 2 instances; e-mails file rewritten between requests, including histories that end with a file without any address (empty, comments only; atomic rename and in place); logins of identities without any e-mail through --provider=adfs; e-mails file behind a symlink whose target is swapped (ConfigMap layout); identity attributes (groups, e-mail) changed by the provider at a token refresh; " +
+		"identity shapes: the session's other fields (user name, preferred_username, group names) equal to the e-mail / to its upper-case form / to an ALLOWED address while the e-mail fails the rules, bearer tokens without or with an empty e-mail claim (subject takes its place), --oidc-email-claim=sub / preferred_username, on cookie sessions, bearer tokens and logins; " +
+		"e-mails files with several columns (annotation columns holding other addresses, quoted fields with commas, trailing commas, blank lines, CRLF, padded fields, several addresses in one field), also in the rewrite histories: only the first column of a record is an allowed address. " +
 		"cell = (rule set, e-mail class, source, endpoint, store, history, expected)")
 	run.Assume("e-mail rule semantics as documented: exact '@domain' suffix, '.d'/'*.d' = domain part ends with '.d', '*' = all, case-insensitive; file = exact lower-cased address",
 		"an 'e-mail' without '@' under a sub-domain rule is not judged", "auth-only constraints are judged in the only-if direction against the most permissive documented reading",
@@ -1737,7 +2012,9 @@ func TestVerif_C08(t *testing.T) {
 	phase("global_rules", func() { c08Global(cw, subjects) })
 	w.Up.Reset()
 	phase("htpasswd", func() { c08Htpasswd(cw) })
-	phase("logins", func() { c08Logins(cw, subjects) })
+	var shapeLogins []c08LoginJob
+	phase("identity_shapes", func() { shapeLogins = c08IdentityShapes(cw) })
+	phase("logins", func() { c08Logins(cw, subjects, shapeLogins) })
 	w.Up.Reset()
 	phase("auth_only", func() { c08AuthOnly(cw) })
 	phase("reload", func() { c08Reload(cw) })
@@ -1755,11 +2032,12 @@ func TestVerif_C08(t *testing.T) {
 	for _, c := range []struct {
 		name string
 		min  int64
-	}{{"served_allowed", 1000}, {"refused_disallowed", 1000}, {"refusals_with_cookie_deletion_checked", 500}, {"logins_refused_expected", 100}, {"logins_allowed_succeeded", 50}, {"authonly_202", 100}, {"authonly_refused", 100}, {"reloads_observed", 6}, {"sessions_split_over_several_cookies", 1}, {"emptied_lists_enforced", 4}, {"logins_without_email_refused", 8}, {"symlinked_reloads_observed", 4}, {"refused_after_refresh_outside_rules", 30}, {"served_after_refresh_within_rules", 15}} {
+	}{{"served_allowed", 1000}, {"refused_disallowed", 1000}, {"refusals_with_cookie_deletion_checked", 500}, {"logins_refused_expected", 100}, {"logins_allowed_succeeded", 50}, {"authonly_202", 100}, {"authonly_refused", 100}, {"reloads_observed", 6}, {"sessions_split_over_several_cookies", 1}, {"emptied_lists_enforced", 4}, {"logins_without_email_refused", 8}, {"symlinked_reloads_observed", 4}, {"refused_after_refresh_outside_rules", 30}, {"served_after_refresh_within_rules", 15},
+		{"identity_shape_probes_outside_rules", 1000}, {"file_column_subjects_outside_rules_at_multi_column_files", 8}, {"reload_versions_with_annotation_column", 3}} {
 		if run.Counter(c.name) < c.min && run.Violations() == 0 {
 			fmt.Printf("INCONCLUSIVE property=C08 reason=counter %s=%d < %d: the workload did not exercise this outcome enough\n", c.name, run.Counter(c.name), c.min)
 			t.Fail()
 		}
 	}
-	run.Finish(int64(run.Env.Pick(12000, 50000)), run.Env.Pick(6000, 12000))
+	run.Finish(int64(run.Env.Pick(16000, 50000)), run.Env.Pick(8000, 12000))
 }
